@@ -215,6 +215,60 @@ pub fn universe(depth: usize) -> Vec<Sh> {
             }
         }
     }
+    if depth >= 5 {
+        // every ordered pair of the FULL leaf alphabet as a record and (where legal) as a union,
+        // every ordered triple of the middle alphabet as a record
+        for a in &full {
+            for b in &full {
+                out.push(Sh::Record(vec![a.clone(), b.clone()]));
+                let u = vec![a.clone(), b.clone()];
+                if union_ok(&u) {
+                    out.push(Sh::Union(u));
+                }
+            }
+        }
+        for a in &mid {
+            for b in &mid {
+                for c in &mid {
+                    out.push(Sh::Record(vec![a.clone(), b.clone(), c.clone()]));
+                }
+            }
+        }
+        // every two-level nesting of collection constructors over the middle alphabet, and three levels
+        // over the small one
+        let wrap = |t: &Sh| -> Vec<Sh> { vec![Sh::Array(Box::new(t.clone())), Sh::Map(Box::new(t.clone())), Sh::Record(vec![t.clone()]), Sh::Union(vec![Sh::Prim("null"), t.clone()])] };
+        for t in &mid {
+            for w1 in wrap(t) {
+                if is_null(t) && matches!(w1, Sh::Union(_)) {
+                    continue;
+                }
+                for w2 in wrap(&w1) {
+                    if matches!(w1, Sh::Union(_)) && matches!(w2, Sh::Union(_)) {
+                        continue;
+                    }
+                    out.push(w2);
+                }
+            }
+        }
+        for t in &small {
+            for w1 in wrap(t) {
+                if is_null(t) && matches!(w1, Sh::Union(_)) {
+                    continue;
+                }
+                for w2 in wrap(&w1) {
+                    if matches!(w1, Sh::Union(_)) && matches!(w2, Sh::Union(_)) {
+                        continue;
+                    }
+                    for w3 in wrap(&w2) {
+                        if matches!(w2, Sh::Union(_)) && matches!(w3, Sh::Union(_)) {
+                            continue;
+                        }
+                        out.push(w3);
+                    }
+                }
+            }
+        }
+    }
     out
 }
 
